@@ -304,7 +304,7 @@ func (g *netGen) churnOp(faults bool, lazyOK bool) {
 	case x == 5:
 		if g.nrel[i][t] > 0 {
 			g.nrel[i][t]--
-			g.add("unrelay", int64(i), int64(t), int64(bint(r.chance(0.3))))
+			g.add("unrelay", int64(i), int64(t), int64([]int{0, 0, 0, 1, 1, 2}[r.intn(6)]))
 		} else {
 			g.add("relay", int64(i), int64(t))
 			g.nrel[i][t]++
@@ -338,7 +338,7 @@ func (g *netGen) churnOp(faults bool, lazyOK bool) {
 		a, b := g.randomEdge()
 		if a >= 0 && g.resets[[2]int{a, b}] < 3 {
 			g.resets[[2]int{a, b}]++
-			g.add("reset", int64(a), int64(b))
+			g.add("reset", int64(a), int64(b), int64(bint(r.chance(0.4))))
 		}
 	case x == 9 && faults:
 		a, b := g.randomEdge()
@@ -363,7 +363,11 @@ func (g *netGen) churnOp(faults bool, lazyOK bool) {
 			}
 		}
 	case x == 10:
-		g.add("tclose", int64(i), int64(t))
+		if r.chance(0.5) {
+			g.add("tclose", int64(i), int64(t))
+		} else {
+			g.add("recancel", int64(i), int64(r.intn(4)))
+		}
 	default:
 		g.add("pub", int64(r.intn(g.n)), int64(t), int64(r.rng(8, 200)))
 	}
@@ -436,15 +440,24 @@ func (g *netGen) genIslands() bool {
 func (g *netGen) genC01() {
 	r := g.r
 	if r.chance(0.5) && g.genIslands() {
-		g.add("settle", int64(r.rng(0, 1500)))
-		for k := r.rng(1, 4); k > 0; k-- {
-			g.add("pub", int64(r.intn(g.n)), 0, int64(r.rng(8, 300)))
-			if r.chance(0.6) {
-				g.add("advus", int64(r.rng(1, 30000)))
-			}
+		// several rounds over the gossip-only bridge, sometimes with a small per-heartbeat IHAVE/IWANT
+		// budget (never more publications per round than the budget admits in one heartbeat)
+		per := 4
+		if r.chance(0.5) {
+			per = r.rng(2, 4)
+			g.p.Knobs["max_ihave_len"] = float64(per)
 		}
-		g.add("deliver")
-		g.add("check")
+		g.add("settle", int64(r.rng(0, 1500)))
+		for round := r.rng(1, 3); round > 0; round-- {
+			for k := r.rng(1, per); k > 0; k-- {
+				g.add("pub", int64(r.intn(g.n)), 0, int64(r.rng(8, 300)))
+				if r.chance(0.6) {
+					g.add("advus", int64(r.rng(1, 30000)))
+				}
+			}
+			g.add("deliver")
+			g.add("check")
+		}
 		return
 	}
 	// bring-up: topology and roles in either order
@@ -544,7 +557,7 @@ func (g *netGen) genC18() {
 
 func runNet(s *sim) {
 	s.scheduleWriters()
-	defer func() { verifYieldQueueFn = nil }()
+	defer func() { verifYieldQueueFn = nil; verifYieldFn = nil }()
 	w := newNetWorld(s)
 	if !w.start() {
 		return
